@@ -110,10 +110,38 @@ theorem error_names_present_header (e : Exts) (first : Nat) :
       e.hopByHopOptions.isSome = true ∧ first ≠ 0) :=
   ⟨fun m h => error_names_present' e first m h, fun h => hopByHopNotAtStart_means' e first h⟩
 
-/-- `from_slice` never reaches the `unwrap()` in `to_header` (any first number, any bytes). -/
+/-- `from_slice` never panics: neither the `unwrap()` in `to_header` nor the `usize` subtraction
+    `slice.len() - rest.len()` of the error offsets can fail (any first number, any bytes). -/
 theorem from_slice_never_panics (first : Nat) (slice : Bytes) :
     Exts.fromSlice first slice ≠ .error .panic :=
   fromSlice_no_panic first slice
+
+/-- whatever `from_slice` accepts: the returned rest is the input behind exactly `header_len()` of
+    the decoded struct (nothing skipped, nothing read twice). -/
+theorem from_slice_window (first : Nat) (slice : Bytes) (e : Exts) (n : Nat) (rest : Bytes)
+    (h : Exts.fromSlice first slice = .ok (e, n, rest)) :
+    ∃ pre, slice = pre ++ rest ∧ pre.length = e.headerLen :=
+  fromSlice_window first slice e n rest h
+
+/-- The property's first two sentences in one statement: link any well-formed struct to a number
+    `n` that is not an extension header number, serialise it from the returned first number, append
+    any tail and decode: the RFC 8200 ordered bytes decode to the same struct, `n` and the tail. -/
+theorem link_write_decode (e e' : Exts) (n first' : Nat) (tail : Bytes) (hwf : e.WF) (hn : n < 256)
+    (hne : isIpv6ExtHeaderValue n = false) (h : e.setNextHeaders n = (e', first')) :
+    Exts.fromSlice first' (serialise e'.rfcChain ++ tail) = .ok (e', n, tail) ∧
+    (serialise e'.rfcChain).length = e'.headerLen ∧ e'.headerLen = e.headerLen := by
+  obtain ⟨h1, h2, _, _⟩ := link_then_walk e e' n first' h
+  have hwf' := setNextHeaders_WF e e' n first' hn hwf h
+  refine ⟨write_decode_non_ext e' hwf' first' _ n tail h2 h1 hne, write_len e' hwf' first' _ h2, ?_⟩
+  clear h1 h2 hwf' hwf
+  rcases e with ⟨_ | a, _ | b, _ | ⟨c, _ | d⟩, _ | f, _ | g⟩ <;>
+    simp [Exts.setNextHeaders] at h <;> obtain ⟨rfl, rfl⟩ := h <;>
+    simp [Exts.headerLen, Raw.headerLen, Raw.headerLength, Frag.headerLen, Auth.headerLen, Auth.rawIcvLen]
+
+/-- `set_next_headers` does not change whether the payload is fragmented. -/
+theorem link_keeps_is_fragmenting_payload (e : Exts) (n : Nat) :
+    (e.setNextHeaders n).1.isFragmentingPayload = e.isFragmentingPayload :=
+  setNextHeaders_isFrag e n
 
 /-! ## Ipv4Extensions (single authentication header) -/
 
@@ -227,6 +255,10 @@ example : sample.WF := by decide
 example : isIpv6ExtHeaderValue 17 = false := by decide
 example : (sample.setNextHeaders 17).2 = 0 := by decide
 example : isWalked 17 = false := by decide
+/-- the hypotheses of `write_decode` / `write_len` are satisfiable: the linked sample is written. -/
+example : ∃ out, (sample.setNextHeaders 17).1.write (sample.setNextHeaders 17).2 = (out, .ok ()) ∧
+    (sample.setNextHeaders 17).1.nextHeader (sample.setNextHeaders 17).2 = .ok 17 :=
+  ⟨_, (link_then_walk sample _ 17 _ rfl).2.1, (link_then_walk sample _ 17 _ rfl).1⟩
 /-- an inconsistent struct (fragment header never referenced) for `inconsistent_is_error` (2). -/
 example : ({ Exts.empty with fragment := some ⟨17, 0, false, 1⟩ } : Exts).hdr .fragment = some ⟨.fragment, 17, [17, 0, 0, 0, 0, 0, 0, 1]⟩ := by
   decide
